@@ -160,6 +160,36 @@ pub fn space(thorough: bool) -> Vec<Prog> {
             out.push(build_mix(vec![a, b], format!("mix={mix}|{i}"), mix));
         }
     }
+    // the same declarations with their types written through `alias`es, and with the type left to inference from a
+    // literal initialiser
+    {
+        let n0 = out.len();
+        for i in 0..n0 {
+            let p = &out[i];
+            let cut = p.src.find("@vertex").or_else(|| p.src.find("@fragment")).or_else(|| p.src.find("var<workgroup>")).or_else(|| p.src.find("fn ")).unwrap_or(p.src.len());
+            let (decls, rest) = p.src.split_at(cut);
+            let aliased = decls.replace(": bool", ": AlBool").replace(": i32", ": AlI32").replace(": u32", ": AlU32").replace(": f32", ": AlF32");
+            let src = format!("alias AlBool = bool;\nalias AlI32 = i32;\nalias AlU32 = u32;\nalias AlF32 = f32;\n{aliased}{rest}");
+            let q = Prog { key: format!("alias|{}", p.key), src, specs: p.specs.clone(), mix: p.mix };
+            let mut inferred = decls.to_string();
+            let mut changed = false;
+            for sp in &p.specs {
+                if sp.default == ODefault::Literal {
+                    let from = format!("{}: {} = {}", sp.name, sp.ty.wgsl(), sp.ty.literal());
+                    let to = format!("{} = {}", sp.name, sp.ty.literal());
+                    if inferred.contains(&from) {
+                        inferred = inferred.replace(&from, &to);
+                        changed = true;
+                    }
+                }
+            }
+            let r = Prog { key: format!("inferred|{}", p.key), src: format!("{inferred}{rest}"), specs: p.specs.clone(), mix: p.mix };
+            out.push(q);
+            if changed {
+                out.push(r);
+            }
+        }
+    }
     // pairs: all ordered pairs in thorough, a diagonal band in quick
     for (i, a) in s.iter().enumerate() {
         for (j, b) in s.iter().enumerate() {
@@ -327,8 +357,10 @@ pub fn run(tier: &str) -> i32 {
         let detail = |obs: String| json!({"wgsl": p.src, "config": cfg.key(), "observed": obs});
         match &cr.check {
             Verdict::Accepted => {}
-            Verdict::Rejected(_) => {
-                rep.filtered("module rejected by rustc (C01's domain)");
+            Verdict::Rejected(e) => {
+                // these modules contain nothing but the overrides and trivial entry points: what rustc rejects is the
+                // constants struct, its map or the helpers that carry it
+                rep.violation(p.key.clone(), format!("exec: the constants struct / map / entry helpers do not compile: {} {}", e[0].0, e[0].1.chars().take(90).collect::<String>()), detail(format!("{e:?}")));
                 continue;
             }
             Verdict::ProbeMismatch(e) => {
